@@ -18,6 +18,7 @@ import Nitime.Lemmas.C20Entropy3
 import Nitime.Lemmas.C20Lanes
 import Nitime.Lemmas.C20Spectrum
 import Nitime.Lemmas.C20Object
+import Nitime.Lemmas.C20Fft
 
 namespace Nitime.C20.Props
 open Finset Nitime.Ev Nitime.C20
@@ -347,6 +348,57 @@ theorem percent_change_along_axis (x : ND ℝ) (axis : ℤ) (ax : ℕ)
   rw [lane_mapLanes percentChange1 id (fun l => by simp [percentChange1]) x ax (normAxis_lt hax) ho hi]
   exact mean_percentChange _ hμ
 
+/-! ### the FFT path (`utils.fftconvolve`) equals the direct sums -/
+
+/-- **convolution theorem** for the model of `utils.fftconvolve` (`fft` of both zero-padded inputs,
+product, `ifft`, first `len(a)+len(b)-1` samples, `.real` unless an input is complex): for EVERY pair
+of sequences, EVERY FFT length `L ≥ len(a)+len(b)-1` and every primitive `L`-th root of unity `ζ`
+with `conj ζ = ζ⁻¹` as twiddle factor, the result is the direct linear convolution, entry
+`t` = `Σ_{i ≤ t} a_i·b_{t-i}`.  (`cr = false`, the real-part branch, is taken by the code only for
+real inputs.) -/
+theorem fftconvolve_is_linear_convolution {L : ℕ} (hL : 0 < L) {ζ : ℂ} (hζ : IsPrimitiveRoot ζ L)
+    (hc : conj ζ = ζ⁻¹) (cr : Bool) (a b : List ℂ) (hS : a.length + b.length - 1 ≤ L)
+    (hreal : cr = false → (∀ v ∈ a, conj v = v) ∧ (∀ v ∈ b, conj v = v)) :
+    fftconvolveL (fun m => ζ ^ m) L cr a b = convFull a b ∧
+    (fftconvolveL (fun m => ζ ^ m) L cr a b).length = a.length + b.length - 1 ∧
+    ∀ t, t < a.length + b.length - 1 →
+      nth (fftconvolveL (fun m => ζ ^ m) L cr a b) t = ∑ i ∈ range (t + 1), nth a i * nth b (t - i) := by
+  have h := fftconvolveL_eq_convFull hL hζ hc cr a b hS hreal
+  refine ⟨h, by rw [h, length_convFull], fun t ht => by rw [h, nth_convFull a b ht]⟩
+
+/-- the same with the FFT length the code chooses (`2 ** ceil(log2(size))`, which is `≥ size`) and
+the twiddle table the driver uses, `tw L m = cos(2πm/L) − i·sin(2πm/L)`; every `mode` slice of
+the result is the same slice of the direct convolution -/
+theorem fftconvolve_code_path (cr : Bool) (a b : List ℂ)
+    (hreal : cr = false → (∀ v ∈ a, conj v = v) ∧ (∀ v ∈ b, conj v = v)) :
+    fftconvolve twTable cr a b = convFull a b ∧
+    (∀ mode, fftconvolveMode twTable cr mode a b = convMode mode a b) ∧
+    a.length + b.length - 1 ≤ fftSize (a.length + b.length - 1) ∧
+    ∀ L m, (twTable L m).re = Real.cos (2 * Real.pi * m / L) ∧
+           (twTable L m).im = -Real.sin (2 * Real.pi * m / L) := by
+  have h := fftconvolve_eq_convFull cr a b hreal
+  refine ⟨h, fun mode => by simp only [fftconvolveMode, convMode, h], le_fftSize _, fun L m => ?_⟩
+  exact ⟨twiddle_pow_re L m, by rw [← twiddle_pow_im L m, twTable, neg_neg]⟩
+
+/-- `crosscov` THROUGH the FFT path is `crosscov` with the direct sums, hence every entry of the
+all-lags result is the lagged sum of the definition -/
+theorem crosscov_fft_is_lagged_sum (cr : Bool) (x y : List ℂ) (h : x.length = y.length) (db nm : Bool)
+    (hreal : cr = false → (∀ v ∈ x, conj v = v) ∧ (∀ v ∈ y, conj v = v)) :
+    (∀ al, crosscovFftCore twTable cr x y al db nm = crosscovCore x y al db nm) ∧
+    ∀ m, m < 2 * x.length - 1 →
+      nth (crosscovFftCore twTable cr x y true db nm) m
+        = nrm nm x.length (∑ n ∈ range x.length,
+            if x.length - 1 ≤ n + m ∧ n + m - (x.length - 1) < x.length
+            then nth (pre db x) (n + m - (x.length - 1)) * conj (nth (pre db y) n) else 0) := by
+  refine ⟨fun al => crosscovFft_eq cr x y al db nm hreal, fun m hm => ?_⟩
+  rw [crosscovFft_eq cr x y true db nm hreal]
+  exact crosscov_is_lagged_sum x y h db nm hm
+
+/-- `autocov` / `autocorr` through the FFT path equal the direct path -/
+theorem autocov_fft_eq_direct (cr : Bool) (x : List ℂ) (al db nm : Bool)
+    (hreal : cr = false → ∀ v ∈ x, conj v = v) :
+    autocovFft1 twTable cr x al db nm = autocov1 x al db nm := autocovFft_eq cr x al db nm hreal
+
 /-! ### non-vacuity -/
 example : (crosscovCore [1, 2, 4] [3, 5, 4] true false false : List Rat) = [4, 13, 29, 26, 12] := by
   decide +kernel
@@ -355,5 +407,16 @@ example : (crosscovCore [3, 5, 4] [1, 2, 4] true false false : List Rat) = [12, 
 example : normAxis 3 (-2) = some 1 ∧ outerOf [2, 5, 3] 1 = 2 ∧ innerOf [2, 5, 3] 1 = 3 := by decide
 example : jointCounts (pairs (uniq [0, 1, 1, 0]) (uniq [5, 5, 7, 7])) ([0, 1, 1, 0].zip [5, 5, 7, 7])
     = [1, 1, 1, 1] := by decide
+
+/-- the FFT path at the exact instance: length-2 DFT (twiddles 1, −1), `[1,2] * [3] = [3,6]`;
+length 2 is too short for `[1,2] * [3,4]` (size 3): circular wrap-around, the hypothesis `size ≤ L`
+is needed -/
+example : (fftconvolveL (fun m => if m % 2 = 0 then 1 else -1) 2 true [1, 2] [3] : List Rat) = [3, 6] ∧
+    (convFull [1, 2] [3] : List Rat) = [3, 6] ∧
+    (convFull [1, 2] [3, 4] : List Rat) = [3, 10, 8] ∧
+    (fftconvolveL (fun m => if m % 2 = 0 then 1 else -1) 2 true [1, 2] [3, 4] : List Rat) = [11, 10] := by
+  decide +kernel
+example : fftSize 1 = 1 ∧ fftSize 2 = 2 ∧ fftSize 3 = 4 ∧ fftSize 127 = 128 ∧ fftSize 128 = 128 ∧
+    fftSize 129 = 256 := by decide
 
 end Nitime.C20.Props
